@@ -26,8 +26,25 @@ CONFIG = dict(
             'verif hook internal/core/verif_c14.go (redirects the sink of the plan dump so that the plan Run executed is observed) and '
             'verifapi/c14/c14.go; the existing verifapi planner exports (InsertHibernateBoot) and Pipeline.VerifItems',
         ],
-        level_text='proof on the interpreter model',
-        level_note='',
+        level_text='Coq theorems about the Gallina interpreter model of Pipeline.Run, for every item state type, value type, item behaviour '
+                   '(Consume/Merge/Hibernate/Boot/Finalize as arbitrary functions), item list and plan: C14_steps (commit records = commit '
+                   'actions, with their commit, branch and isMerge value), C14_inputs (every key of the map a call sees = output of the last '
+                   'earlier provider of the same step, else the step metadata; no hypothesis), C14_once_in_order (plans with live branches: '
+                   'items 0..n-1 once each, in resolved order), C14_index, C14_is_merge_scan / C14_is_merge (flag true iff replayed on >= 2 '
+                   'branches, under head_emergeb, contigb, distinctb), C14_errors_abort (failing call is the last one; Run returns its error '
+                   'and no result), C14_done / C14_summary (BeginTime, EndTime, CommitsNumber), C14_oracle_accepts_model (the extracted log '
+                   'oracle accepts every model log); all closed under the global context. Every run replays the real call log through the '
+                   'extracted interpreter (equality) and through the extracted oracles.',
+        level_note='Proved about the model, tied to the Go code by correspondence only (complete event log incl. object identities of '
+                   'forked items, and the result). The plan is an input: the theorems assume boolean plan predicates that are evaluated '
+                   'on the plan of every real run and that the C02/C04 validator implies; the resolved item order is taken as observed '
+                   '(C10). Modelled rather than verified: Go map semantics of the state map, reflect-based ForkCopyPipelineItem (copy of '
+                   'the object state), the planner (only its output is used; it is non-deterministic, so the executed plan is captured '
+                   'from Run\'s own plan dump). Not modelled: RunTime/RunTimePerItem, OnProgress, DryRun, Dispose, items that mutate the '
+                   'deps map. Boundaries stated in the theorems: EndTime is max(0, newest committer time) (newestTime starts at int64 0); '
+                   'CommitsNumber counts the input commits including those of dropped disjoint components; the commit index counts '
+                   'replays (a merge commit replayed on k branches takes k indices). Run panics on an empty commit list (plan[0]); the '
+                   'model does too.',
         technique='machine-checked proof in Coq over a Gallina model of the action interpreter + model/implementation correspondence replay of the '
                   'complete call log with extracted oracles',
     )
